@@ -492,6 +492,20 @@ func (fg *FuncGen) call(v *ssa.Call, c *ssa.CallCommon, instr ssa.Instruction) {
 			}
 		}
 	}
+	if fg.g.IsRepoFunc(callee) && len(args) == len(callee.Params) {
+		rel, sorts := fg.g.retRel(callee)
+		var ts []string
+		okSorts := true
+		for i, a := range append(append([]TTerm{}, args...), rs...) {
+			if i >= len(sorts) || a.Sort != sorts[i] {
+				okSorts = false
+			}
+			ts = append(ts, a.S)
+		}
+		if okSorts && len(ts) == len(sorts) && len(ts) > 0 {
+			fg.assume("(" + rel + " " + strings.Join(ts, " ") + ")")
+		}
+	}
 	fg.setCallResults(v, rs)
 	fg.recordLog(v, rs)
 	for _, cb := range backs {
